@@ -258,6 +258,26 @@ func c12Scan(args []string) error {
 				if pan != "" {
 					line.Panic = pan
 				}
+				// the literal, also a long one, after a rewrite that re-prints the expression (a transformation that reports
+				// a change, as the renaming of the 13.3 migration does): it still evaluates to the same string
+				for _, lit := range []string{s, strings.Repeat(s+"·", 60) + s} {
+					tpl3 := "@(" + strconv.Quote(lit) + ")"
+					func() {
+						defer func() {
+							if r := recover(); r != nil && line.Panic == "" {
+								line.Panic = fmt.Sprintf("rewrite: %v", r)
+							}
+						}()
+						rew, rerr := refactor.Template(tpl3, []string{"a"}, func(excellent.Expression) bool { return true })
+						if rerr != nil {
+							return
+						}
+						o3, p3 := safeTemplate(env, ctx, rew)
+						if p3 == "" && o3 != lit && line.Out1 == s {
+							line.Out1 = "after a re-printing rewrite: " + o3 // reported through LiteralOK
+						}
+					}()
+				}
 			}
 			n++
 			lw.write(line.Src, line, func(v string) { line.Src = v })
